@@ -25,7 +25,41 @@ func c08ints(r *rand.Rand, n int) string {
 
 func c08pick(r *rand.Rand, xs ...string) string { return xs[r.Intn(len(xs))] }
 
+// programs the Go compiler rejects (checked by hand with go vet / go build): gomacro must reject them
+// too, or at least panic -- it must not evaluate them to a value
+var c08rejected = []string{
+	`struct-dup-field x := P{X: 1, X: 2}; return fmt.Sprint(x)`,
+	`struct-too-many x := P{1, 2, 3}; return fmt.Sprint(x)`,
+	`struct-too-few x := P{1}; return fmt.Sprint(x)`,
+	`struct-mixed x := P{X: 1, 2}; return fmt.Sprint(x)`,
+	`struct-unknown-field x := P{Z: 1}; return fmt.Sprint(x)`,
+	`map-dup-key x := map[string]int{"a": 1, "a": 2}; return fmt.Sprint(x)`,
+	`map-missing-key x := map[string]int{1}; return fmt.Sprint(x)`,
+	`array-index-oob x := [2]int{1, 2}; return fmt.Sprint(x[2])`,
+	`array-lit-oob x := [2]int{2: 1}; return fmt.Sprint(x)`,
+	`string-byte-assign s := "abc"; s[0] = 'x'; return s`,
+	`map-elem-address m := map[string]int{"a": 1}; p := &m["a"]; return fmt.Sprint(*p)`,
+	`map-elem-field-assign m := map[string]P{"a": {1, 2}}; m["a"].X = 5; return fmt.Sprint(m)`,
+	`slice-of-unaddressable-array s := three()[:]; return fmt.Sprint(s)`,
+	`append-to-array a := [2]int{1, 2}; b := append(a, 3); return fmt.Sprint(b)`,
+	`copy-elem-type-mismatch a := []int{1}; b := []string{"a"}; n := copy(a, b); return fmt.Sprint(n)`,
+	`index-float-var s := []int{1, 2}; f := 1.0; return fmt.Sprint(s[f])`,
+	`len-of-int x := 5; return fmt.Sprint(len(x))`,
+	`cap-of-map m := map[int]int{}; return fmt.Sprint(cap(m))`,
+	`delete-wrong-key m := map[int]int{}; delete(m, "a"); return fmt.Sprint(m)`,
+	`make-array x := make([3]int, 3); return fmt.Sprint(x)`,
+	`slice3-string s := "abc"; lo, hi := 0, 1; return s[lo:hi:hi]`,
+	`negative-const-index s := []int{1}; return fmt.Sprint(s[-1])`,
+}
+
 var c08rich = []c08richGen{
+	{"map-identity-assign", func(r *rand.Rand) string {
+		k := 3 + r.Intn(3)
+		if r.Intn(4) == 0 {
+			return `var m map[int]int; pc = 1; m[1] += 0; return "no panic"`
+		}
+		return fmt.Sprintf(`m := map[int]int{3: 1}; m[%d] += 0; m[%d] *= 1; m[%d] |= 0; m[%d] -= 0; f := map[string]float64{}; f["a"] *= 1; s := map[int]string{}; s[1] += ""; return fmt.Sprint(m, len(m), f, len(s))`, k, k+1, k+2, k)
+	}},
 	{"call-arg-single-value", func(r *rand.Rand) string {
 		k := r.Intn(3)
 		return fmt.Sprintf(`m := map[int]string{1: "a"}; var e interface{} = 7; c := make(chan int, 1); c <- 5; one := func(x string) string { return x + "!" }; return fmt.Sprint(m[%d]) + "|" + one(m[%d]) + "|" + fmt.Sprint(e.(int)) + "|" + fmt.Sprint(<-c) + "|" + fmt.Sprint(len(m[1]))`, k, k)
